@@ -879,8 +879,23 @@ def robot_check(ctx, pid):
         "exhaustive": False,
     })
 
+    # C07: the selector's own exception policy (run() without on_exception), which a MagicRobot never uses
+    sel_bad = None
+    if pid == "C07":
+        from . import c07_selector_probe
+        from .common import REPO
+        sel_out, sel_bad = c07_selector_probe.check(REPO)
+        undriven_sel = sum(1 for _, _, r_ in sel_out if "probe_error" in r_ or "setup_error" in r_)
+        ctx.coverage["selector_standalone"] = {"scenarios": len(sel_out), "not_driven": undriven_sel,
+                                               "what": "AutonomousModeSelector.run() without on_exception, one DEFAULT mode, faults in on_enable / "
+                                                       "on_iteration / on_disable, FMS attached and not, 5 real-time passes each"}
+        ctx.obligation("impl:the selector's own exception policy (stand-alone run(), %d scenarios)" % len(sel_out),
+                       sel_bad is None and undriven_sel <= 2, "" if sel_bad is None else sel_bad["what"])
+
     def search():
         found = []
+        if sel_bad is not None:
+            return [sel_bad]
         if fb_extra is not None:
             c09, fcs, fobs, fbad = fb_extra
             for i in list(fbad) + list(range(len(fcs))):
@@ -944,6 +959,18 @@ def robot_replay(ctx, pid, obj):
             print("VIOLATION property=C11 replay=(replayed)")
             return 1
         print("key and topic type are as the property says")
+        return 0
+    if obj.get("kind") == "selector-standalone":
+        from . import c07_selector_probe
+        from .common import REPO
+        res = c07_selector_probe.run_scenario(REPO, obj["fms"], obj["faults"])
+        vd = c07_selector_probe.verdict(obj["fms"], obj["faults"], res)
+        print("AutonomousModeSelector.run() stand-alone, FMS %s, faults %r -> %r" % ("attached" if obj["fms"] else "not attached", obj["faults"], res))
+        if vd:
+            print("violates C07:", vd)
+            print("VIOLATION property=C07 replay=(replayed)")
+            return 1
+        print("the selector's own exception policy does what C07 says")
         return 0
     if obj.get("kind") != "input":
         print("replay names broken obligations only: %s" % [b.get("name") for b in obj.get("broken_obligations", [])])
